@@ -422,6 +422,7 @@ def C13(tier):
     obs = [layout_ob("layout-trees-planar", "Harness_E_C13", sh, {"P4": [4, 1, 5]},
                      consts={"P1": 0, "P2": 0, "P5": 2, "SZ": 4, "LSFIX": 1, "MINNS": 1},
                      bounds="all out-trees and in-trees with <= %d nodes in every edge order x {SinkColoring,VAlign,PackRight}; symbolic widths, NodeSpacing>=1" % n)]
+    obs.append(wmedian_kernel_ob(tier))
     if not q:
         t7 = [t for t in trees(7, True) if len(t) == 6]
         obs.append(layout_ob("layout-trees-planar-7", "Harness_E_C13", t7, {"P4": [4]},
